@@ -83,8 +83,18 @@ _ENV = None
 _LOG = []
 
 
+_FNS = None
+
+
+def probe_functions():
+    """The probe function objects, kept apart from any environment's registry (a broken library may share or
+    empty registries behind the harness's back)."""
+    lib_env()
+    return _FNS
+
+
 def lib_env():
-    global _ENV
+    global _ENV, _FNS
     if _ENV is not None:
         return _ENV
     import jsonpath_rfc9535 as jp
@@ -102,6 +112,7 @@ def lib_env():
                 return semantic(_p, _r, a, jp.NOTHING, jp.JSONPathNodeList)
 
         fns[name] = F()
+    _FNS = dict(fns)
     _ENV = lib.make_env(functions=fns)
     return _ENV
 
